@@ -125,7 +125,7 @@ def _run_cat(job):
     wb = cat.to_wb(m)
     fmt = job.get("fmt", "dict")
     inp, kw = render.render(wb, fmt)
-    res = conv.convert_case({"input": inp, "kwargs": kw, "events": False})
+    res = conv.convert_case({"input": inp, "kwargs": kw, "events": False, "allow_malformed": True})
     msg = res.get("message") or ""
     low = msg.lower()
     end = {"ev": "end", "status": res["status"], "cited": sorted({int(x) for x in re.findall(r"\[row : (\d+)\]", msg)}),
@@ -217,7 +217,8 @@ def _run_fuzz(job):
         inp, kw = render.render(wb, fmt)
     if job.get("kwargs"):
         kw.update(job["kwargs"])
-    res = conv.convert_case({"input": inp, "kwargs": kw, "events": False, "pass_warnings": job["idx"] % 2 == 0})
+    # whether a *result* is well-formed is C01's subject; here only the kind of outcome (result / library error / internal exception) matters
+    res = conv.convert_case({"input": inp, "kwargs": kw, "events": False, "pass_warnings": job["idx"] % 2 == 0, "allow_malformed": True})
     cfg = {"lists": [], "formname": "data", "omitid": False, "iname": False, "entity": False}
     trace = [{"ev": "init", "cfg": cfg, "nwarn0": 0},
              {"ev": "end", "status": res["status"], "cited": [], "mentions": [], "has_xform": bool(res.get("xform")), "residual": 0,
